@@ -4,6 +4,7 @@ import (
 	"fmt"
 	"go/token"
 	"go/types"
+	"strings"
 
 	"golang.org/x/tools/go/ssa"
 
@@ -31,9 +32,10 @@ func init() {
 			"R4": "CER content: identity, addresses, every application the client was told to advertise",
 			"R5": "CEA handler registered before the first write",
 			"R6": "handler hygiene: no blocking channel op, close only once-protected",
+			"R8": "transport deadlines: armed per operation, or disarmed again for every direction they cover",
 			"R7": "CEA acceptance skeleton: every validation step precedes acceptance, Result-Code == 2001, rejection guards live",
 		},
-		MinInstances: map[string]int{"R1": 1, "R2": 1, "R3": 3, "R4": 5, "R5": 1, "R6": 3, "R7": 1},
+		MinInstances: map[string]int{"R1": 1, "R2": 1, "R3": 3, "R4": 5, "R5": 1, "R6": 3, "R7": 1, "R8": 1},
 		Assumptions:  []string{"time.After(d) fires no earlier than d", "a handler registered on the mux runs on the connection's reader goroutine (C08)"},
 	})
 }
@@ -151,6 +153,9 @@ func runC12(c *Ctx) {
 
 	// ---- R6 ----
 	c.handlerHygiene("R6")
+
+	// ---- R8: stable afterwards — no transport deadline armed for the dial outlives it ----
+	c.deadlineDiscipline("R8")
 
 	// ---- R7 ----
 	c.rejectionGuardsLive("R7", "CEA")
@@ -544,4 +549,107 @@ func (c *Ctx) sendAfterClose(f *ssa.Function) (string, ssa.Instruction) {
 		return "a send on a channel that the same handler closes, not excluded once the close has happened: a message arriving after the handshake makes the handler panic (send on closed channel) and the connection is torn down", bad
 	}
 	return "", nil
+}
+
+// deadlineDiscipline: a deadline set on the transport either bounds the operation that follows it in the same
+// function (armed per read / per write, re-armed by the next one), or is taken off again: for every direction a
+// non-per-operation Set*Deadline arms, the library must contain a zero-time Set*Deadline covering that direction.
+// (A dial timeout that stays armed makes the established connection fail later with i/o timeout.)
+func (c *Ctx) deadlineDiscipline(rule string) {
+	r := c.R
+	type site struct {
+		ci    ssa.CallInstruction
+		dirs  string // "R", "W" or "RW"
+		clear bool
+	}
+	var sites []site
+	for _, f := range c.P.LibraryFuncs() {
+		if pkgOf(f).Path() != pkgDiam {
+			continue
+		}
+		for _, ci := range flow.CallInstrs(f) {
+			name := ""
+			if ci.Common().IsInvoke() {
+				name = ci.Common().Method.Name()
+			} else if o := flow.CalleeObj(ci); o != nil {
+				name = o.Name()
+			}
+			dirs := map[string]string{"SetDeadline": "RW", "SetReadDeadline": "R", "SetWriteDeadline": "W"}[name]
+			if dirs == "" {
+				continue
+			}
+			args := ci.Common().Args
+			if len(args) == 0 {
+				continue
+			}
+			t := args[len(args)-1]
+			// the zero time: a load of a zero-initialised local struct (time.Time{})
+			isZero := false
+			if k, ok := t.(*ssa.Const); ok && k.Value == nil {
+				isZero = true // the zero value of time.Time
+			}
+			if u, ok := t.(*ssa.UnOp); ok && u.Op == token.MUL {
+				if al, ok := u.X.(*ssa.Alloc); ok {
+					stores := 0
+					for _, ref := range flow.Referrers(al) {
+						if _, isSt := ref.(*ssa.Store); isSt {
+							stores++
+						}
+						if _, isFA := ref.(*ssa.FieldAddr); isFA {
+							stores++
+						}
+					}
+					isZero = stores == 0
+				}
+			}
+			sites = append(sites, site{ci, dirs, isZero})
+		}
+	}
+	cleared := ""
+	for _, s := range sites {
+		if s.clear {
+			cleared += s.dirs
+		}
+	}
+	n := 0
+	for _, s := range sites {
+		if s.clear {
+			continue
+		}
+		n++
+		f := s.ci.Parent()
+		key := fmt.Sprintf("%s:%s-armed", fname(f), calleeLabel(s.ci))
+		// per operation: an I/O call on the connection follows in the same function
+		perOp := false
+		for _, cj := range flow.CallInstrs(f) {
+			cj := cj
+			if cj == s.ci || flow.PathAvoiding(f, s.ci, func(x ssa.Instruction) bool { return x == ssa.Instruction(cj) }, nil) == nil {
+				continue
+			}
+			com := cj.Common()
+			if com.IsInvoke() {
+				switch com.Method.Name() {
+				case "Read", "Write", "Flush", "ReadAtLeast", "WriteStream":
+					perOp = true
+				}
+			}
+			if g := flow.StaticCallee(cj); g != nil && (g.Name() == "ReadMessage" || g.Name() == "Flush" || g.Name() == "Write") {
+				perOp = true
+			}
+		}
+		if perOp {
+			r.Ok(rule, key, c.pos(s.ci), "armed immediately before the operation it bounds (re-armed by the next one)")
+			continue
+		}
+		missing := ""
+		for _, d := range s.dirs {
+			if !strings.ContainsRune(cleared, d) {
+				missing += string(d)
+			}
+		}
+		r.Check(missing == "", rule, key, c.pos(s.ci), "a zero-time Set*Deadline for each armed direction exists in the library", fmt.Sprintf("a deadline armed here for direction(s) %s is never taken off again (no zero-time Set*Deadline covers %s): once it expires every later read/write on the established connection fails with i/o timeout", s.dirs, missing))
+	}
+	if n == 0 {
+		r.Trivial(rule, "transport:no-deadlines-armed", "-", "the library arms no transport deadline")
+	}
 }
